@@ -210,7 +210,7 @@ theorem forced_bisects {L H : α} (s : St α) (h : Forced L H s) (dx : α) :
       have := h.epsPos
       exact mul_le_mul_of_nonneg_left hbL (by positivity)
     linarith [h.narrow]
-  simp only [useBisect, absv_eq_abs, h.bis, Bool.true_and, Bool.not_true, Bool.false_and,
+  simp only [useBisect_eq, useBisect5, absv_eq_abs, h.bis, Bool.true_and, Bool.not_true, Bool.false_and,
     Bool.or_false, Bool.or_eq_true, decide_eq_true_eq]
   right; exact hdelta
 
